@@ -78,3 +78,32 @@ Example C14_nonvacuous :
 Proof.
   cbn. repeat split; repeat constructor; try (cbv; discriminate).
 Qed.
+
+(* ---- SynchronizedClock (sismic/clock/clock.py: `time` returns `self._interpreter.time`): its reading is the followed
+   interpreter's _time.  It equals the value sampled by the latest execute_once -- whatever the outcome of that call --, is
+   that value at every moment of the call after the sampling (the listeners are called with it: C13_frozen), and no other
+   operation changes it. *)
+From Coq Require Import ZArith.
+From Sismic Require Import Base Chart Interp.
+From SismicProofs Require MetaProofs.
+Close Scope Q_scope.
+
+Definition sync_time {ctx : Type} (i : istate ctx) : Z := i_time i.
+
+Theorem C14_sync :
+  forall (ctx X : Type) (exec_code : call ctx -> ctx -> option (ctx * list event))
+         (eval_code : call ctx -> ctx -> option bool) (emit : Z -> meta -> X -> X * option err)
+         (sc : chart) (fuel : nat) (now : Z) (s s' : mstate ctx X) (r : option macrostep + err),
+    execute_once ctx X exec_code eval_code emit sc fuel now s = (s', r) ->
+    sync_time (m_i s') = now.
+Proof.
+  intros ctx X exec_code eval_code emit sc fuel now s s' r H.
+  exact (proj1 (MetaProofs.C13_frozen ctx X exec_code eval_code emit sc fuel now s s' r H)).
+Qed.
+Print Assumptions C14_sync.
+
+Theorem C14_sync_queue :
+  forall (ctx X : Type) (e : event) (s s' : mstate ctx X) (r : unit + err),
+    queue ctx X e s = (s', r) -> sync_time (m_i s') = sync_time (m_i s).
+Proof. intros ctx X e s s' r H. exact (MetaProofs.queue_time ctx X e s s' r H). Qed.
+Print Assumptions C14_sync_queue.
